@@ -306,6 +306,9 @@ class KDQTreeNode:
             n <= count_ubound
             or np.unique(data).size <= count_ubound
             or new_cell_size <= min_cutpoint_sizes[axis]
+            # the midpoint of two adjacent floats can round up to the maximum;
+            # nothing lies above it, so this cell cannot be split
+            or not np.any(data[:, axis] > midpoint_at_axis)
         ):
             leaf = KDQTreeNode({"build": n}, None, None, None, None)
             leaves.append(leaf)
